@@ -302,16 +302,22 @@ func (st *verifC08State) op(op string) string {
 	case a[0] == "write" && len(a) == 3:
 		fh := handle()
 		data, err := hex.DecodeString(a[2])
-		if fh == nil || err != nil {
+		if err != nil {
 			return "bad-op"
+		}
+		if fh == nil {
+			return "nohandle"
 		}
 		n, err := fh.Write(data)
 		return withShape(fmt.Sprintf("%d,%s", n, verifC08Err(err)), fh)
 	case (a[0] == "read" || a[0] == "readn") && len(a) == 3:
 		fh := handle()
 		want, err := strconv.Atoi(a[2])
-		if fh == nil || err != nil || want < 0 {
+		if err != nil || want < 0 {
 			return "bad-op"
+		}
+		if fh == nil {
+			return "nohandle"
 		}
 		buf := make([]byte, want)
 		var n int
@@ -330,29 +336,35 @@ func (st *verifC08State) op(op string) string {
 		fh := handle()
 		off, err1 := strconv.ParseInt(a[2], 10, 64)
 		whence, err2 := strconv.Atoi(a[3])
-		if fh == nil || err1 != nil || err2 != nil {
+		if err1 != nil || err2 != nil {
 			return "bad-op"
+		}
+		if fh == nil {
+			return "nohandle"
 		}
 		pos, err := fh.Seek(off, whence)
 		return withShape(fmt.Sprintf("%d,%s", pos, verifC08Err(err)), fh)
 	case a[0] == "trunc" && len(a) == 3:
 		fh := handle()
 		size, err := strconv.ParseInt(a[2], 10, 64)
-		if fh == nil || err != nil || size < 0 {
+		if err != nil || size < 0 {
 			return "bad-op"
+		}
+		if fh == nil {
+			return "nohandle"
 		}
 		return withShape(verifC08Err(fh.Truncate(size)), fh)
 	case a[0] == "close" && len(a) == 2:
 		fh := handle()
 		if fh == nil {
-			return "bad-op"
+			return "nohandle"
 		}
 		delete(st.handles, a[1])
 		return verifC08Err(fh.Close())
 	case a[0] == "hstat" && len(a) == 2:
 		fh := handle()
 		if fh == nil {
-			return "bad-op"
+			return "nohandle"
 		}
 		fi, err := fh.Stat()
 		if err != nil {
@@ -362,7 +374,7 @@ func (st *verifC08State) op(op string) string {
 	case a[0] == "hreaddir" && len(a) == 2:
 		fh := handle()
 		if fh == nil {
-			return "bad-op"
+			return "nohandle"
 		}
 		fis, err := fh.Readdir(-1)
 		if err != nil {
@@ -372,7 +384,7 @@ func (st *verifC08State) op(op string) string {
 	case a[0] == "hsync" && len(a) == 2:
 		fh := handle()
 		if fh == nil {
-			return "bad-op"
+			return "nohandle"
 		}
 		err := fh.Sync()
 		st.quiesce()
